@@ -133,12 +133,13 @@ def canaries(traces):
             continue
         a = copy.deepcopy(src)
         a["tid"] = -1 - len(out)
-        done = False
-        for l in a["lines"]:                       # one coordinate loses its last digit
-            for tok in l:
-                if "f" in tok and tok["f"] >= 0 and not done:
-                    tok["f"] = -1
-                    done = True
+        last = None
+        for l in a["lines"]:                       # the LAST coordinate of the file loses its last digit
+            for tok in l:                          # (header numbers such as "1.0" or "3.0" may coincide with a coordinate)
+                if "f" in tok and tok["f"] >= 0:
+                    last = tok
+        if last is not None:
+            last["f"] = -1
         out.append(a)
         b = copy.deepcopy(src)
         b["tid"] = -1 - len(out)
